@@ -1,4 +1,4 @@
 From Coq Require Import Extraction ExtrOcamlBasic.
-From Nomt Require Import Base Hash Trie Store Emit Result PathProof BuildTrie VerifyUpdate Witness MultiProof MultiUpdate CoreGlue Image.
+From Nomt Require Import Base Hash Trie Store Emit Result PathProof BuildTrie VerifyUpdate Witness MultiProof MultiUpdate CoreGlue Image SyncProto SyncGlue Shards Overflow BitOps Wal RbProto.
 Extraction Language OCaml.
-Separate Extraction Base Hash Trie Store Emit Result PathProof BuildTrie VerifyUpdate Witness MultiProof MultiUpdate CoreGlue Image.
+Separate Extraction Base Hash Trie Store Emit Result PathProof BuildTrie VerifyUpdate Witness MultiProof MultiUpdate CoreGlue Image SyncProto SyncGlue Shards Overflow BitOps Wal RbProto.
